@@ -217,6 +217,13 @@ def cases_for(tier, s):
         R.append({"kind": "mix", "recipe": {"b": "rule_mix", "cell": cell, "p": {"rules": [["default", 1], ["default", 3], ["default", 6]], "shared": True, "sid": 2}}})
         R.append({"kind": "qelem", "recipe": {"b": "quadrature_element", "cell": cell, "p": {"degree": 3}}})
         R.append({"kind": "qelem", "recipe": {"b": "quadrature_element_vec", "cell": cell, "p": {"degree": 2}}})
+    # the vertex scheme next to another rule on facets (both declaration/sort orders)
+    for cell in ("triangle", "tetrahedron", "quadrilateral", "hexahedron"):
+        for rules in ([["default", 1], ["vertex", 1]], [["vertex", 1], ["default", 2]], [["Gauss-Jacobi", 1], ["vertex", 1], ["default", 3]]):
+            for it in ("exterior_facet", "interior_facet"):
+                if tier == "quick" and it == "interior_facet" and cell in ("quadrilateral", "hexahedron"):
+                    continue
+                R.append({"kind": "mix", "recipe": {"b": "rule_mix", "cell": cell, "p": {"rules": rules, "itype": it, "shared": len(rules) == 2}}})
     # a one-point rule and a higher rule sharing a coefficient (selective reduced integration), both declaration orders
     for cell in ("interval", "triangle", "quadrilateral", "tetrahedron", "hexahedron"):
         for lo_first in (True, False):
